@@ -937,6 +937,36 @@ def poscar(ctx):
     ctx.ob('POSCAR', loc, 'a symbols list whose length differs from the number of atom types is refused', ok, node=fn, key='symbols length')
 
 
+def style_electrical(ctx):
+    """charges, dipoles and electric fields are written in the unit the LAMMPS style names: each such entry of lammps.style.unit() has the SI dimension of its quantity and the SI
+    magnitude of the documented LAMMPS unit (statcoulomb, Debye, V/angstrom, ...); being an expression over unit names with the right dimension it does not depend on the working units"""
+    from .. import dims
+    from fractions import Fraction as F
+    ST_ = 'atomman/lammps/style.py'
+    fn = ctx.fn(ST_, 'unit')
+    n = 0
+    for st, ref in dims.LAMMPS_SI_ELECTRICAL.items():
+        ev = SymEval(module_aliases(ctx.mod(ST_)))
+        ev.globals = {'OrderedDict': dict}
+        try:
+            live = [q for q in ev.run_fn(fn, [st], {}) if q.done == 'return']
+        except (Opaque, WouldRaise) as e:
+            raise AnalysisError('style.unit(%r): %s' % (st, e))
+        ctx.need(len(live) == 1 and isinstance(live[0].ret, dict), 'style.unit(%r) does not return one table' % st)
+        for k, want_si in ref.items():
+            v = live[0].ret.get(k)
+            n += 1
+            try:
+                d, magn = dims.dim_of(v)
+                okd = tuple(d) == tuple(map(F, dims.DIM[k]))
+                ok = okd and abs(magn / want_si - 1) < 1e-6
+                det = 'dimension (L,M,T,Q,Θ) = %s, evaluates to %.9g SI' % (tuple(map(str, d)), magn)
+            except Exception as e:
+                ok, det = False, 'not a unit expression over known names: %s' % e
+            ctx.ob('STYLE-ELECTRICAL', ST_ + '::unit', '%s/%s = %r is the unit LAMMPS documents for that style: the dimension of %s and %.9g in SI' % (st, k, v, k, want_si), bool(ok), det, node=fn, key='%s/%s electrical' % (st, k))
+    ctx.floor('STYLE-ELECTRICAL', n, 21)
+
+
 def flag_types(ctx):
     """the snippet writer uses the periodic flags as a mask (bflags[system.pbc] = 'p'): what System stores is a boolean array whatever the flags were given as
     (0/1 integers select elements 0 and 1 instead of masking)"""
@@ -974,4 +1004,4 @@ def run(ctx):
     def _precedence(c):
         _c09._MOD[0] = c.mod('atomman/unitconvert.py')
         _c09.precedence(c)
-    ctx.run_rules([prop_tables, data_file, dump_file, tables, poscar, system_wrap, fresh_tables, flag_types, _precedence, box_cache])
+    ctx.run_rules([prop_tables, data_file, dump_file, tables, poscar, system_wrap, fresh_tables, flag_types, _precedence, box_cache, style_electrical])
